@@ -72,6 +72,7 @@ class C03(Check):
             rng = ctx.sub_rng('c03')
             self.corr_patterns(ctx, cssutils, rng)
             self.corr_functions(ctx, cssutils, rng)
+            self.corr_safe(ctx, cssutils, rng)
         finally:
             cssutils.ser.prefs.useDefaults()
 
@@ -213,6 +214,59 @@ class C03(Check):
                      sample={'op': op, 'arg': arg, 'impl': got if op in ('forb',) else dec_opt(got)})
             if m is not None and m != got:
                 ctx.disagree('codec function ' + op + ' (' + kind + ')', arg, got, m)
+
+    # -- (3) the Safe predicates: exactly the values that survive write-then-read --------------------
+    SAFE_PIECES = ['\\', '"', 'a', 'g', '\n', ' ', "'", ')', '110000', '\x01', '\r']
+
+    def safe_values(self, ctx, rng):
+        import itertools
+        vals = []
+        for n in range(0, ctx.n(4, 5) + 1):
+            for t in itertools.product(self.SAFE_PIECES, repeat=n):
+                vals.append(''.join(t))
+        for _ in range(ctx.n(3000, 60000)):
+            vals.append(C.raw_text(rng, 7))
+        return vals
+
+    def impl_str_rt(self, cssutils, tk, v):
+        """helper.string(v) tokenized by the real tokenizer and read back with stringvalue: (written, value|None)"""
+        from cssutils import helper
+        w = helper.string(v)
+        toks = list(tk.tokenize(w))
+        if len(toks) != 1 or toks[0][0] != 'STRING':
+            return w, None
+        return w, helper.stringvalue(toks[0][1])
+
+    def impl_uri_rt(self, cssutils, tk, v):
+        from cssutils import helper
+        w = helper.uri(v)
+        toks = list(tk.tokenize(w))
+        if len(toks) != 1 or toks[0][0] != 'URI':
+            return w, None
+        return w, helper.urivalue(toks[0][1])
+
+    def corr_safe(self, ctx, cssutils, rng):
+        from cssutils import tokenize2
+        tk = tokenize2.Tokenizer()
+        vals = self.safe_values(ctx, rng)
+        lines = []
+        for v in vals:
+            lines.append('strclass ' + enc(v))
+            lines.append('uriclass ' + enc(v))
+        out = ctx.driver(lines) if ctx.model_ok else [None] * len(lines)
+        for i, v in enumerate(vals):
+            for which, m, rt, mirror in (('string', out[2 * i], self.impl_str_rt, C.str_class),
+                                         ('uri', out[2 * i + 1], self.impl_uri_rt, C.uri_class)):
+                w, back = rt(cssutils, tk, v)
+                ok = back == v
+                mir = mirror(v) or 'safe'
+                ctx.case(key=('safe', which, v), nontrivial='\\' in v or '"' in v, kind='safe:%s:%s' % (which, mir),
+                         sample={'stored': v, 'written': w, 'reread': back, 'class': mir})
+                if m is not None and m != mir:
+                    ctx.disagree('Safe class (%s): Lean predicate vs python mirror' % which, v, mir, m)
+                if ok != (mir == 'safe'):
+                    ctx.disagree('Safe (%s) is exactly "written value reads back" on the implementation' % which,
+                                 {'stored': v, 'written': w}, {'reread': back, 'ok': ok}, mir)
 
     # ------------------------------------------------------------------------------------------
     def replay(self, ctx, data):
